@@ -45,6 +45,8 @@ def plan(ctx):
         ("weights", ["c1", "c2"], RR[0], ["t"], 3, 2, ("plain",)),
         ("foursubs", ["c1"], RR[(s // 2 + 1) % len(RR)], ["t"], 4, 1, ALL),
         ("sys", ["c1"], SYS, ["$s/x", "a/x"], 3, 1, ALL),
+        ("foursubs_mixed", ["c1"], MIXED[(s + 1) % len(MIXED)], ["t"], 4, 1, ("plain",)),
+        ("weights_all", ["c1", "c2"], RR[(s // 2 + 2) % len(RR)], ["t"], 3, 1, ALL),
     ]
 
 
